@@ -41,6 +41,7 @@ def gen(t):
     a('w_orthogonal', '%s& o, const %s& s, const %s& tt' % (V, V, V), 'o = orthogonal(s, tt);')
     a('w_reflect', '%s& o, const %s& s, const %s& tt' % (V, V, V), 'o = reflect(s, tt);')
     a('w_closestVertex', '%s& o, const %s& a, const %s& b, const %s& c, const %s& p' % (V, V, V, V, V), 'o = closestVertex(a, b, c, p);')
+    a('w_closestVertexLine', '%s& o, const %s& a, const %s& b, const %s& c, const %s& l' % (V, V, V, V, L), 'o = closestVertex(a, b, c, l);')
     a('w_rotatePoint', '%s& o, const %s& p, const %s& l, const %s& ang' % (V, V, L, E), 'o = rotatePoint(p, l, ang);')
     a('w_tri', 'bool& r, const %s& l, const %s& v0, const %s& v1, const %s& v2, %s& pt, %s& bary, bool& front' % (L, V, V, V, V, V), 'r = intersect(l, v0, v1, v2, pt, bary, front);')
     return tu
@@ -382,6 +383,30 @@ def main(rep, ws, tier):
                 if not all(sel[i] is vs[best][i] for i in range(3)): return 'does not return the first nearest vertex on some ordering of the distances', None
             return None, 'first vertex with the smallest squared distance, on all %d orderings' % total
         run('w_closestVertex', 'R15.vec', closest_vertex)
+
+        def closest_vertex_line(S):
+            outs = outs_v(S, 'a0')
+            vs = [[agg.slot_in(b, i, t) for i in range(3)] for b in ('a1', 'a2', 'a3')]
+            per, total, leaves, conds = ordd.all_envs(outs)
+            ar = [l for l in leaves if l.op in ordd.ARITH]
+            if len(ar) != 3: return 'compares %d quantities, expected the three squared distances to the line' % len(ar), None
+            ctx = P.Ctx(); g = G(ctx, t); pos, d = g.vec('a4'), g.vec('a4', 3)
+            dist = []
+            for k, b in enumerate(('a1', 'a2', 'a3')):
+                w = g.sub(g.vec(b), pos)
+                perp = g.sub(w, g.scale(d, g.dot(w, d)))          # v - closestPointTo(v)
+                want = g.dot(perp, perp)
+                m = [l for l in ar if ctx.requal(ctx.rat(l), want)]
+                if len(m) != 1: return 'no squared distance |v%d - closestPointTo(v%d)|^2 among the compared quantities' % (k, k), None
+                dist.append(m[0])
+            for env in ordd.iter_envs(per):
+                sel = [ordd.ev(o, env) for o in outs]
+                ranks = [env[x.id] for x in dist]
+                best = ranks.index(min(ranks))
+                if not all(sel[i] is vs[best][i] for i in range(3)):
+                    return 'with the squared distances to the line ranked d(v0):%s d(v1):%s d(v2):%s the function does not return the first nearest vertex' % tuple(ranks), None
+            return None, 'first vertex with the smallest squared distance to the line, on all %d orderings' % total
+        run('w_closestVertexLine', 'R15.vec', closest_vertex_line)
 
         def rotate_point(S):
             outs = outs_v(S, 'a0')
